@@ -616,6 +616,16 @@ func genForge(r *rand.Rand, id string, size int, total int) []string {
 			if p != q {
 				g.add("sync %d %d", p, q)
 			}
+		case c < 63 && c >= 59 && colluder >= 0 && len(honestWriters) > 0:
+			// a genuine entry written again with other bytes (another address, the same valid signature),
+			// named by a colluding writer's honest entry: one signed entry is ONE member of the log
+			hw := honestWriters[g.pick(len(honestWriters))]
+			write(hw)
+			q := members[g.pick(len(members))]
+			route := []string{"sync", "pub", "dc"}[g.pick(3)]
+			g.add("forge %d recipe=reencode base=%d", att, hw)
+			g.add("forge %d recipe=honest base=%d extra=@last k=%s v=%s", colluder, colluder, hx(keys[0]), hx(g.value()))
+			g.add("inject %d heads=@last route=%s from=%d", q, route, colluder)
 		case c < 59 && colluder >= 0:
 			// a colluding writer's honest entry whose parent is an entry-shaped block WITHOUT a clock: the
 			// entry is valid and must arrive, the block must be a failed fetch, not a dead process
